@@ -88,8 +88,8 @@ CLAIMED["C14"] = dict(
     ref="6/C14, 10.3")
 
 CLAIMED["C09"] = dict(
-    text="Proof for the algebraic clauses (RING, T = unsigned): Matrix44/Matrix33 setTranslation, setScale (vector and scalar), setShear send a row-vector point to p+t, to p scaled per axis, to the documented shear, translation() returns the translation row; the in-place translate, scale, shear (Vec3/Vec2, Shear6 and scalar overloads) equal the corresponding set* matrix multiplied on the LEFT of the current matrix for ARBITRARY (also non-affine) current matrices - the fourth row/column terms the tests never exercise.",
-    note="Trusted: clang AST + cxx2c (differentially validated), cbmc SMT generation, z3-new som. RING -> float transfer as for C05 (same template; classical rounding bound not machine-checked). Not covered: every rotation builder (sin/cos, orthonormality), rotate(), Matrix22, the frame builders.",
+    text="Proof for the algebraic clauses (RING, T = unsigned): Matrix44/Matrix33 setTranslation, setScale (vector and scalar), setShear send a row-vector point to p+t, to p scaled per axis, to the documented shear, translation() returns the translation row; the in-place translate, scale, shear (Vec3/Vec2, Shear6 and scalar overloads) equal the corresponding set* matrix multiplied on the LEFT of the current matrix for ARBITRARY (also non-affine) current matrices - the fourth row/column terms the tests never exercise. Rotations with cos and sin uninterpreted (the clauses are polynomial identities in the cos/sin values): Matrix44::setEulerAngles(r) == Rx(r.x) Ry(r.y) Rz(r.z), the product of the elementary row-vector rotations; Matrix44::rotate(r) == setEulerAngles(r) x M; Matrix33/Matrix22::setRotation == [[c,s],[-s,c]]; Matrix33/22::rotate(r) == M x setRotation(r).",
+    note="Trusted: clang AST + cxx2c (differentially validated), cbmc SMT generation, z3-new som. RING -> float transfer as for C05 (same template; classical rounding bound not machine-checked). Not covered: orthonormality / determinant +1 (needs c^2+s^2=1), setAxisAngle (normalisation), Matrix22 scale, the frame builders.",
     technique="polynomial identities over Z/2^32 on the extracted unsigned instantiation (cbmc --z3 --outfile + z3 sum-of-monomials)",
     ref="6/C09, 10.3")
 CLAIMED["C10"] = dict(
